@@ -237,7 +237,7 @@ theorem processResponse_Acct (r : Nat) (s : State) (remote : Remote) (w : Wire) 
       split at hhit
       · rename_i o' h1; cases hhit; exact List.mem_of_find?_eq_some h1
       · exact List.mem_of_find?_eq_some hhit
-    by_cases hf : (!(o.observing && w.obs.isSome)) = true
+    by_cases hf : (!(o.observing && w.obs.isSome && isSuccessful w.code)) = true
     · simp only [hf, ↓reduceIte, Acct, termCount, List.countP_cons, List.countP_nil, isTerm,
         outCount_dropOutgoing]
       by_cases e : o.req = r
@@ -246,8 +246,8 @@ theorem processResponse_Acct (r : Nat) (s : State) (remote : Remote) (w : Wire) 
           exact ⟨o, hmem, by simp [e]⟩
         simp [e]; omega
       · simp [e]
-    · have hf' : (!(o.observing && w.obs.isSome)) = false := by
-        cases hb : (!(o.observing && w.obs.isSome))
+    · have hf' : (!(o.observing && w.obs.isSome && isSuccessful w.code)) = false := by
+        cases hb : (!(o.observing && w.obs.isSome && isSuccessful w.code))
         · rfl
         · exact absurd hb hf
       simp only [hf', Bool.false_eq_true, ↓reduceIte, Acct, termCount, List.countP_cons,
